@@ -33,6 +33,13 @@ from .comp import MC_CFG, MC_CFG_NOEMIT, plan_walks
 
 warnings.filterwarnings("ignore")
 
+NPROCS = max(1, int(os.environ.get("VERIF_PROCS", "16")))   # simulation pools / TLC workers are bounded by this
+
+
+def tlc_workers(cap=8):
+    return max(1, min(cap, NPROCS))
+
+
 MEMTYPES = ["Memory", "MultiReadMemory", "MultiportXORMemory", "MultiportXORILVTMemory",
             "MultiportOneHotILVTMemory"]
 
@@ -204,7 +211,8 @@ def _port_record_task(args):
         return {"cfg": cfg, "seed": seed, "cycles": []}, traceback.format_exc()
 
 
-def record_port_traces(cfgs, seeds_per_cfg, cycles, seed, rep, procs=16):
+def record_port_traces(cfgs, seeds_per_cfg, cycles, seed, rep, procs=None):
+    procs = procs or NPROCS
     tasks = []
     for ci, cfg in enumerate(cfgs):
         for k in range(seeds_per_cfg):
@@ -307,9 +315,10 @@ def _port_replay_task(args):
         return bcfg, None, 0, traceback.format_exc()
 
 
-def replay_port_edges(edges, inits, memtypes, rep, procs=16, max_len=60):
+def replay_port_edges(edges, inits, memtypes, rep, procs=None, max_len=60):
     """Cover every edge of the MultiMemMC graph with walks from reset and drive each walk into
     every memory type that accepts the configuration."""
+    procs = procs or NPROCS
     init_by_cfg = {json.dumps(i["cfg"], sort_keys=True): json.dumps(i["st"], sort_keys=True) for i in inits}
     for e in edges:
         e["_init"] = init_by_cfg.get(json.dumps(e["cfg"], sort_keys=True))
